@@ -116,7 +116,12 @@ def _mp_rlock_factory():
 
 
 def _mp_array_factory(typecode, seq):
-    return SimArray(simworld.current_kernel(), typecode, seq)
+    k = simworld.current_kernel()
+    if getattr(k, "no_sharedctypes", False):
+        # an interpreter built without ctypes: shared arrays cannot be had (process-shared
+        # locks, which need only the semaphore module, still can)
+        raise ImportError("No module named '_ctypes'")
+    return SimArray(k, typecode, seq)
 
 
 _mp_rlock_factory._sim_factory = "rlock"
